@@ -89,7 +89,7 @@ def run(ctx):
         ctx.ob("R1", "parse-dominates-walk", len(pa) == 1 and bool(wk) and all(df.dominates(pa[0], w) for w in wk), "do_find: parse_args sites %s, process_dir sites %s; the single parse must dominate every walk" % (pa, wk), fn=df, how="dominators")
         g = C.G(prim.event_graph(df, lambda t: "parse" if t.callee == C.PARSE_ARGS else ("walk" if t.callee == C.PROCESS_DIR else None)))
         pn = g.nodes("parse")
-        ok = len(pn) == 1 and bool(g.succ(pn[0], "1")) and all(x.startswith("RET(call:FromResidual") for x in g.succ(pn[0], "1")) and not any(C.base(x) == "walk" for x in g.reach(g.succ(pn[0], "1")))
+        ok = len(pn) == 1 and bool(g.succ(pn[0], "1")) and all(C.is_err_ret(x) for x in g.succ(pn[0], "1")) and not any(C.base(x) == "walk" for x in g.reach(g.succ(pn[0], "1")))
         ctx.ob("R1", "parse-error-propagated", ok, "a parse error must leave do_find at once (`?`), without a walk; events: %s" % g.fmt(), fn=df, how="event graph")
     fm = ctx.fn("R1", C.FIND_MAIN)
     if fm is not None:
